@@ -168,6 +168,18 @@ CHECKS["C01"] = dict(
     technique="TLA+ tokeniser state machine model-checked with TLC; TLC-enumerated sources and random mutations replayed under a process watchdog",
     design="3/C01")
 
+CHECKS["C14"] = dict(
+    text="spec/props/C14.tla: for one canonical instance of every tag kind and expression form (44 snippets) TLC generates every "
+         "re-spelling that changes up to 2/3 token boundaries to none (only where the conservative CanAbut allows), blank, TAB, LF, "
+         "CRLF or two blanks, and checks on spec/Lexer.tla that the non-space token sequence is unchanged (SpellingInvariant); every "
+         "re-spelling is replayed: tokens (hook VerifLex), parse result, tree and rendering must equal the canonical spelling's. "
+         "In addition programs of the C06/C07/C10/C11 families are unparsed with random separators, tight delimiters, either "
+         "quote, trailing commas and '-' markers and must render the reference output.",
+    note="Trusted: Lexer.tla, CanAbut (conservative by construction), the Go unparser's spelling options. White space is not varied "
+         "inside strings or multi-word operators; '-' markers only next to non-white-space text.",
+    technique="TLA+ tokeniser spec model-checked with TLC over generated re-spellings; re-spellings replayed into lexer, parser and executor",
+    design="3/C14")
+
 NOT_YET = {}
 
 props = [json.loads(l)["id"] for l in open(os.path.join(VERIF, "properties.jsonl"))]
